@@ -96,6 +96,17 @@ def run(spec, ctx):
                 ):
                     check_case(ctx, ast, doc, text, "indices")
         ctx.count("index_space_enumerated", len(spec["lens"]) * 31 * 4)
+        if 0 in spec["lens"]:
+            # long arrays, many matches, wide objects
+            big = [{"i": i, "r": [i, [i]]} for i in range(400)]
+            wide = {"k%d" % i: i for i in range(300)}
+            for ast, doc, text in (
+                (["q", "$", [["child", [["slice", 3, None, 7]]]]], big, "$[3::7]"), (["q", "$", [["child", [["slice", None, None, -1]]], ["child", [["name", "i"]]]]], big, "$[::-1].i"),
+                (["q", "$", [["desc", [["index", 0]]]]], big, "$..[0]"), (["q", "$", [["desc", [["wild"]]]]], big[:120], "$..*"), (["q", "$", [["child", [["index", -400], ["index", 399], ["index", 400], ["index", -401]]]]], big, "$[-400,399,400,-401]"),
+                (["q", "$", [["child", [["wild"]]]]], wide, "$.*"), (["q", "$", [["child", [["name", "k299"], ["name", "k0"], ["name", "k300"]]]]], wide, "$['k299','k0','k300']"),
+                (["q", "$", [["child", [["slice", -5, None, None]]], ["child", [["name", "r"]]], ["desc", [["slice", None, 1, None]]]]], big, "$[-5:].r..[:1]"),
+            ):
+                check_case(ctx, ast, doc, text, "large")
     elif kind == "matrix":
         rr = Renderer(r)
         for (vk, v), (sk, sel) in itertools.product(VALUE_KINDS.items(), SEL_KINDS.items()):
